@@ -5,7 +5,7 @@ The harness owns the encoder, so the list of parts it was given is the oracle; n
 
 BOUNDARIES = [b"b", b"boundary", b"----WebKitFormBoundary7MA4YWxkTrZu0gW", b"a-b", b"-", b"--", b"x y", b"'()+_,./:=?", b"B" * 70, b"0"]
 NAMES = ["f", "name with space", "n;x", "k=v", "naïve", "中文", "a,b", "x'y", " lead", "trail ", "", "file[]", "a;b;c", ";;", "x;y=z;w", "%22pct%0D%0A", "100%", "a%41b", "v\x0bt", "l\u2028s", "n\x85l", "ff\x0c", "fs\x1cgs\x1d"]  # (only CR and LF break a header line)
-FILENAMES = ["fn.txt", "", "a;b.txt", "файл.bin", "sp ace.tar.gz", "x=y", "semi;colon", "jan;feb;mar.csv", "a;b;c;d", "; filename=evil", "q%22.txt", "nl%0Ax%0D.bin", "p\u2029s.txt", "nel\x85.bin", "vt\x0b.txt"]
+FILENAMES = ["fn.txt", "", "a;b.txt", "файл.bin", "sp ace.tar.gz", "x=y", "semi;colon", "jan;feb;mar.csv", "a;b;c;d", "; filename=evil", "q%22.txt", "nl%0Ax%0D.bin", "p\u2029s.txt", "nel\x85.bin", "vt\x0b.txt", "reports/2024/q1.csv", "/abs.txt", "../up.txt", "dir/"]
 CTYPES = ["application/octet-stream", "text/plain; charset=x", None, "image/png"]
 
 
@@ -121,7 +121,20 @@ class AnyText:
 
 def expected(form):
     """what every access path must return: (name, filename|None, content bytes, part content-type|None)"""
-    return [((AnyText(), AnyText()) if p.get("latin1_fn") else (p["name"], p["filename"])) + (p["content"], p.get("ctype")) for p in form["parts"]]
+    return [((AnyText(), AnyText()) if p.get("latin1_fn") else (p["name"], p["filename"])) + (p["content"], part_headers(p)) for p in form["parts"]]
+
+
+def part_headers(p):
+    """the part headers an application can observe besides Content-Disposition: (content-type, x-extra); only file parts expose them through the helpers"""
+    if p["filename"] is None:
+        return None
+    return (p.get("ctype"), "some value; with=stuff" if p.get("extra") else None)
+
+
+def observed_headers(filename, headers):
+    if filename is None:
+        return None
+    return (headers.get("content-type"), headers.get("x-extra"))
 
 
 def content_type_header(form, quoted=None):
